@@ -16,6 +16,7 @@ func init() {
 	vhRegister("VH_C17_Real", func(p []int) { VH_C17_Real(p[0], p[1]) })
 	vhRegister("VH_C03_RealOffsets", func(p []int) { VH_C03_RealOffsets() })
 	vhRegister("VH_C15_Cache", func(p []int) { VH_C15_Cache(p[0]) })
+	vhRegister("VH_C15_Recount", func(p []int) { VH_C15_Recount(p[0]) })
 }
 
 // fault kinds of VH_C04_Exit
@@ -408,4 +409,94 @@ func VH_C15_Cache(shape int) {
 		vhAssert(seen["tb"] == 1, "table tb looked up once")
 	}
 	vhCover("cache")
+}
+
+// VH_C15_Recount: the mapper's table has m columns and the first announcement of its id agrees; the
+// id is then RE-ANNOUNCED with a different number of columns (m-1 or m+1: the table was altered on
+// the master) and a rows event of any kind arrives under the new table map. Its cells can no
+// longer be attributed to the mapper's columns by ordinal: the stream ends with an error, what
+// was complete before is delivered unchanged and nothing of the mismatching event is delivered.
+func VH_C15_Recount(m int) {
+	h := &vHist{ghost: &vGhost{}, start: Position{Filename: "f0", Offset: 4}, tables: []string{"ta", "tb"}}
+	g := &vGen{h: h}
+	g.file, g.off = "f0", 4
+	g.add(&vEvent{kind: kRotate, rotName: "f0", rotPos: 4})
+	g.add(&vEvent{kind: kFDE})
+	mp := &vMapper{ncols: map[string]int{"ta": m}}
+	tmN := func(n int) *replication.TableMap {
+		tm := vTM("ta")
+		tm.Types = make([]byte, n)
+		tm.Metadata = make([]uint16, n)
+		for i := range tm.Types {
+			tm.Types[i] = replication.TypeTiny
+		}
+		tm.CanBeNull = replication.NewServerBitmap(n)
+		return tm
+	}
+	rowsN := func(kind, n int) replication.Rows {
+		r := replication.Rows{}
+		row := replication.Row{}
+		if kind == kUpdate || kind == kDelete {
+			r.IdentifyColumns = replication.NewServerBitmap(n)
+			row.NullIdentifyColumns = replication.NewServerBitmap(n)
+			for c := 0; c < n; c++ {
+				r.IdentifyColumns.Set(c, true)
+			}
+			row.Identify = make([]byte, n) // concrete cells: the values are not the subject here
+		}
+		if kind == kWrite || kind == kUpdate {
+			r.DataColumns = replication.NewServerBitmap(n)
+			row.NullColumns = replication.NewServerBitmap(n)
+			for c := 0; c < n; c++ {
+				r.DataColumns.Set(c, true)
+			}
+			row.Data = make([]byte, n)
+		}
+		r.Rows = []replication.Row{row}
+		return r
+	}
+	inTx := vhChoose(2) == 1
+	if inTx {
+		g.add(&vEvent{kind: kQuery, sql: "BEGIN"})
+	}
+	g.add(&vEvent{kind: kTableMap, tableID: 10, tm: tmN(m)})
+	before := 0
+	if vhChoose(2) == 1 {
+		k := []int{kWrite, kUpdate, kDelete}[vhChoose(3)]
+		i := g.add(&vEvent{kind: k, tableID: 10, rows: rowsN(k, m)})
+		if !inTx {
+			g.deliver([]int{i}, i)
+			before = 1
+		}
+	}
+	n := m + 1
+	if m > 1 && vhChoose(2) == 1 {
+		n = m - 1
+	}
+	g.add(&vEvent{kind: kTableMap, tableID: 10, tm: tmN(n)})
+	k := []int{kWrite, kUpdate, kDelete}[vhChoose(3)]
+	g.add(&vEvent{kind: k, tableID: 10, rows: rowsN(k, n)})
+	if inTx {
+		g.add(&vEvent{kind: kQuery, sql: "COMMIT"})
+	}
+	s := newModelStreamer(h, mp)
+	calls := 0
+	s.sendTransaction = func(t *Transaction) error {
+		calls++
+		vhAssert(calls <= before, "nothing is delivered from the event whose column count disagrees with the mapper's table")
+		for _, ev := range t.Events {
+			vhAssert(len(ev.RowValues)+len(ev.RowIdentifies) >= 1, "a row")
+			for _, rv := range ev.RowValues {
+				vhAssert(len(rv.Columns) == m, "delivered rows have the mapper's column count")
+			}
+			for _, rv := range ev.RowIdentifies {
+				vhAssert(len(rv.Columns) == m, "delivered rows have the mapper's column count")
+			}
+		}
+		return nil
+	}
+	_, err := s.parseEvents(context.Background(), h.channel())
+	vhAssert(err != nil, "a rows event whose column count differs from the mapper's table ends the stream with an error")
+	vhAssert(calls == before, "transactions completed before the mismatch are delivered")
+	vhCover("recount")
 }
